@@ -316,3 +316,62 @@ Section Life.
     split; [apply remove_fresh, next_not_live|exact none].
   Qed.
 End Life.
+
+(* ---- a duplicate of a communicator with attachment inherits the same grid ----------------------------------------- *)
+Lemma dup_comms_same nc : dup_comms nc = nc.
+Proof. destruct nc; reflexivity. Qed.
+
+Theorem dup_grid_position nc r : grid_position (dup_comms nc) r = grid_position nc r
+  /\ intra (dup_comms nc) = intra nc /\ inter (dup_comms nc) = inter nc.
+Proof. rewrite dup_comms_same. repeat split. Qed.
+
+Theorem dup_grid_explicit nn ppn : 0 < ppn -> forall r, r < nn * ppn ->
+  comms_dup (comms_explicit nn ppn) r = Some (dup_comms (attach_explicit (nn * ppn) ppn r)) /\
+  grid_position (dup_comms (attach_explicit (nn * ppn) ppn r)) r = (r mod ppn, ppn, r / ppn, nn).
+Proof.
+  intros Hp r Hr. split; [reflexivity|]. rewrite dup_comms_same. apply explicit_grid_position; assumption.
+Qed.
+
+(* the shared arrays and the write grants on the duplicate are those of the original *)
+Theorem dup_results nn ppn wr count : 0 < ppn -> forall contrib,
+  (forall q, q < nn * ppn -> length (contrib q) = count) ->
+  (forall q x, q < nn * ppn -> In x (contrib q) -> wr x = x) ->
+  forall f r, r < nn * ppn ->
+  shmem_allgather (nn * ppn) (comms_dup (comms_explicit nn ppn)) f contrib r = rank_order (nn * ppn) contrib /\
+  shmem_prefix wr (nn * ppn) (comms_dup (comms_explicit nn ppn)) count f contrib r = prefix_spec wr (nn * ppn) count contrib /\
+  write_start (comms_dup (comms_explicit nn ppn)) f r = (if is_shared f then (r mod ppn =? 0) else true).
+Proof.
+  intros Hp contrib Hl Hx f r Hr.
+  split; [exact (allgather_explicit nn ppn Hp contrib f r Hr)|].
+  split; [exact (prefix_explicit wr nn ppn count Hp contrib Hl Hx f r Hr)|exact (write_start_explicit nn ppn Hp f r Hr)].
+Qed.
+
+Section LifeDup.
+  Variable s : lstate.
+  Variables a b : nat.
+  Hypothesis fresh : forall c, In c (live s) -> c < next_id s.
+  Hypothesis attached : attr s = Some (a, b).
+
+  (* the duplicate gets two NEW communicators, copied slot by slot; freeing the duplicate frees exactly those and leaves
+     the original's attachment (attribute and communicators) as it was *)
+  Theorem dup_then_free : let '(s1, d) := l_dup s in
+    d = Some (next_id s, S (next_id s)) /\ dup_sources s = Some (a, b) /\
+    live s1 = S (next_id s) :: next_id s :: live s /\ attr s1 = Some (a, b) /\
+    ~ In (next_id s) (live s) /\ ~ In (S (next_id s)) (live s) /\
+    live (l_free_dup d s1) = live s /\ attr (l_free_dup d s1) = Some (a, b).
+  Proof.
+    unfold l_dup, dup_sources. rewrite attached. cbn [l_free_dup live attr next_id].
+    assert (N1 : ~ In (next_id s) (live s)) by (intros H; apply fresh in H; lia).
+    assert (N2 : ~ In (S (next_id s)) (live s)) by (intros H; apply fresh in H; lia).
+    repeat split; try assumption.
+    cbn [remove]. destruct (Nat.eq_dec (next_id s) (S (next_id s))) as [E|_]; [lia|].
+    destruct (Nat.eq_dec (next_id s) (next_id s)) as [_|N]; [|congruence].
+    rewrite (notin_remove Nat.eq_dec _ _ N1). cbn [remove].
+    destruct (Nat.eq_dec (S (next_id s)) (S (next_id s))) as [_|N]; [|congruence].
+    apply notin_remove. exact N2.
+  Qed.
+End LifeDup.
+
+(* no attachment: MPI_Comm_dup copies nothing *)
+Theorem dup_unattached s : attr s = None -> l_dup s = (s, None).
+Proof. intros H. unfold l_dup. rewrite H. reflexivity. Qed.
